@@ -675,12 +675,335 @@ def al_regenerate(repo, report):
 
 
 # ------------------------------------------------------------------------------------------------
+# (C) the all-nodes result builders
+
+AN_OUT = os.path.join(VERIF, "coq", "gen", "AllNodes.v")
+AN_COMMON = {
+    "resultingNodeJourneyStep.hasConnections()": ("(js_has_conns (nb_cur m))", B),
+    "journeyStep.hasConnections()": ("(js_has_conns (nb_step m))", B),
+    "journey.size()": ("(Z.of_nat (length (nb_journey m)))", Z),
+    "departureTimeSeconds": ("(k_dep (ne_k e))", Z),
+    "arrivalTimeSeconds": ("(k_arr (ne_k e))", Z),
+    "parameters.getMaxTotalTravelTimeSeconds()": ("(q_maxtt (ne_p e))", Z),
+    "numberOfTransfers": ("(nb_ntr m)", Z),
+    "arrivalTime": ("(nb_time m)", Z),
+    "departureTimeD": ("(nb_time m)", Z),
+    "nodesEgress.at(bestEgressNode.value().get().uid).time": ("(x_row_time (row_of (x_best m) (k_egrfp (ne_k e))))", Z),
+    "nodesEgress.at(bestEgressNode.value().get().uid).distance": ("(x_row_dist (row_of (x_best m) (k_egrfp (ne_k e))))", Z),
+}
+FE, RA = "forwardEgressJourneysSteps", "reverseAccessJourneysSteps"
+AN_FUNCS = [
+    dict(prefix="fwdall", file="connection_scan_algorithm/src/forward_journey.cpp", sig="Calculator::forwardJourneyStepAllNodes(",
+         labels=FE, steps="forwardJourneysSteps", best="bestAccessNode",
+         atoms=dict(AN_COMMON, **{
+             FE + ".count(resultingNode.uid)==0": ("(negb (is_some (ne_labels e (ne_node e))))", B),
+             FE + ".at(resultingNode.uid).getFinalEnterConnection().has_value()": ("(is_some (js_enter (x_label e)))", B),
+             FE + ".at(resultingNode.uid).getFinalExitConnection().value().get().getArrivalTime()": ("(x_exit_arr (x_label e))", Z),
+             "journeyStepTrip.line.mode.isTransferable()": ("(x_cur_transferable e m)", B)}),
+         bindings=[r"^constTrip&journeyStepTrip=resultingNodeJourneyStep\.getFinalTrip\(\)\.value\(\)\.get\(\)$"],
+         node=[(r"^resultingNodeJourneyStep\.getFinalEnterConnection\(\)\.value\(\)\.get\(\)\.getDepartureNode\(\)$", "(x_enter_node (nb_cur m))")]),
+    dict(prefix="revall", file="connection_scan_algorithm/src/reverse_journey.cpp", sig="Calculator::reverseJourneyStepAllNodes(",
+         labels=RA, steps="reverseJourneysSteps", best="bestEgressNode",
+         atoms=dict(AN_COMMON, **{
+             RA + ".count(resultingNode.uid)==0": ("(negb (is_some (ne_labels e (ne_node e))))", B),
+             RA + ".at(resultingNode.uid).getFinalEnterConnection().has_value()": ("(is_some (js_enter (x_label e)))", B),
+             RA + ".at(resultingNode.uid).getFinalEnterConnection().value().get().getDepartureTime()": ("(x_enter_dep (x_label e))", Z),
+             RA + ".at(resultingNode.uid).getFinalEnterConnection().value().get().getMinWaitingTimeOrDefault(parameters.getMinWaitingTimeSeconds())": ("(x_enter_minw (ne_p e) (x_label e))", Z),
+             "journeyStepTrip.line.mode.isTransferable()": ("(x_step_transferable e m)", B)}),
+         bindings=[r"^constTrip&journeyStepTrip=journeyStep\.getFinalTrip\(\)\.value\(\)\.get\(\)$"],
+         node=[(r"^resultingNodeJourneyStep\.getFinalExitConnection\(\)\.value\(\)\.get\(\)\.getArrivalNode\(\)$", "(x_exit_node (nb_cur m))")]),
+]
+# sub-expressions that throw where the model has an outcome for it: (text, condition under which they do not, exception)
+AN_THROWS = [("bestEgressNode.value()", "(is_some (nb_best m))", "X_BAD_OPTIONAL"),
+             ("nodesEgress.at(bestEgressNode.value().get().uid)", "(is_some (row_of (x_best m) (k_egrfp (ne_k e))))", "X_OUT_OF_RANGE")]
+
+
+def an_jstep(f, text):
+    if text == "resultingNodeJourneyStep":
+        return "(nb_cur m)"
+    if text == f["labels"] + ".at(resultingNode.uid)":
+        return "(x_label e)"
+    if text == "%s.at(%s.value().get().uid)" % (f["steps"], f["best"]):
+        return "(ne_steps e (x_best m))"
+    m = re.match(r"^JourneyStep\(std::nullopt,std::nullopt,std::nullopt,(.+)\)$", text)
+    if m:
+        args = GE.split_top(m.group(1), ",")
+        if len(args) == 3 and args[1] in ("true", "false"):
+            return "(x_walk %s %s %s)" % (parse_expr(args[0], Z, f["atoms"]), args[1], parse_expr(args[2], Z, f["atoms"]))
+    raise Untranslatable("unrecognised journey step: " + text[:90])
+
+
+def an_statement(f, text, in_loop):
+    """-> list of nodes"""
+    t = flat(text)
+    if SK.LOGGING.match(t):
+        return []
+    for rx in f["bindings"] + [r"^constNode&resultingNode=nodeIte->second$"]:
+        if re.match(rx, t):
+            return []
+    checks = []
+    if not in_loop:
+        checks = [("NCheck", cond, exn) for sub, cond, exn in AN_THROWS if sub in t]
+    if re.match(r"^std::deque<JourneyStep>journey$", t):
+        return [("NNewJourney",)]
+    if re.match("^" + OPT_NODE + f["best"] + "$", t):
+        return [("NSetBest", "None")]
+    m = re.match(r"^(?:JourneyStep)?resultingNodeJourneyStep=(?!=)(.+)$", t)
+    if m:
+        return checks + [("NSetCur", an_jstep(f, m.group(1)))]
+    m = re.match("^" + f["best"] + r"=(?!=)(.+)$", t)
+    if m:
+        for rx, term in f["node"]:
+            if re.match(rx, m.group(1)):
+                return [("NSetBest", term)]
+        raise Untranslatable("unrecognised stop: " + m.group(1)[:80])
+    m = re.match(r"^journey\.push_back\((.+)\)$", t)
+    if m:
+        return checks + [("NPushBack", an_jstep(f, m.group(1)))]
+    m = re.match(r"^(?:journey\[journey\.size\(\)-1\]|journey\.back\(\))\.copyTransferTimeDistance\((.+)\)$", t)
+    if m:
+        return [("NCopyWalk", an_jstep(f, m.group(1)))]
+    if re.match(r"^std::vector<int>\w+=optimizeJourney\(journey\)$", t):
+        return [("NOptimize",)]
+    m = re.match(r"^int(?:arrivalTime|departureTimeD)=(?!=)(.+)$", t)
+    if m:
+        return [("NSetTime", parse_expr(m.group(1), Z, f["atoms"]))]
+    m = re.match(r"^(?:int)?numberOfTransfers(?:(\+=|-=|=)(?!=)(.+)|\{(.+)\})$", t)
+    if m:
+        if m.group(3) is not None:
+            return [("NSetNtr", parse_expr(m.group(3), Z, f["atoms"]))]
+        rhs = parse_expr(m.group(2), Z, f["atoms"])
+        if m.group(1) != "=":
+            rhs = "((nb_ntr m) %s %s)" % (m.group(1)[0], rhs)
+        return [("NSetNtr", rhs)]
+    if t in ("reachableNodesCount++", "++reachableNodesCount", "reachableNodesCount+=1"):
+        return [("NIncCount",)]
+    m = re.match(r"^AccessibleNodesnode=AccessibleNodes\((.+)\)$", t)
+    if m:
+        args = GE.split_top(m.group(1), ",")
+        if len(args) != 4 or args[0] != "resultingNode":
+            raise Untranslatable("AccessibleNodes with unexpected arguments")
+        a = [parse_expr(x, Z, f["atoms"]) for x in args[1:]]
+        return [("NMakeNode", "{| an_node := ne_node e; an_time := %s; an_ttt := %s; an_ntr := %s |}" % tuple(a))]
+    if t == "allNodesResult.get()->nodes.push_back(node)":
+        return [("NPushNode",)]
+    raise Untranslatable("unrecognised statement: " + t[:90])
+
+
+def an_convert(f, nodes, in_loop, names):
+    out = []
+    for n in nodes:
+        if n[0] == "stmt":
+            out += an_statement(f, n[1], in_loop)
+        elif n[0] == "if":
+            th, el = an_convert(f, n[2], in_loop, names), an_convert(f, n[3], in_loop, names)
+            if th or el:
+                out.append(("NIf", parse_expr(flat(n[1]), B, f["atoms"]), th, el))
+        elif n[0] == "while":
+            if in_loop:
+                raise Untranslatable("nested loop")
+            names["gen_%s_walk" % f["prefix"]] = an_convert(f, n[2], True, names)
+            out.append(("NWhile", parse_expr(flat(n[1]), B, f["atoms"]), "gen_%s_walk" % f["prefix"]))
+        elif n[0] == "for" and re.match(r"^auto&journeyStep:journey$", flat(n[1])) and not in_loop:
+            names["gen_%s_count" % f["prefix"]] = an_convert(f, n[2], True, names)
+            out.append(("NForJourney", "gen_%s_count" % f["prefix"]))
+        elif n[0] == "continue":
+            out.append(("NContinue",))
+        else:
+            raise Untranslatable("`%s` in the all-nodes loop" % n[0])
+    return out
+
+
+def an_emit(nodes, indent):
+    pad = "  " * indent
+    if not nodes:
+        return "NDone"
+    n, rest = nodes[0], nodes[1:]
+    c = n[0]
+    if c == "NContinue":
+        if rest:
+            raise Untranslatable("statements after `continue`")
+        return "NContinue"
+    k = an_emit(rest, indent)
+    fn = lambda x: "(fun e m => %s)" % x
+    if c in ("NNewJourney", "NOptimize", "NIncCount", "NPushNode"):
+        return "%s\n%s(%s)" % (c, pad, k)
+    if c in ("NSetNtr", "NSetCur", "NSetBest", "NPushBack", "NCopyWalk", "NSetTime", "NMakeNode"):
+        return "%s %s\n%s(%s)" % (c, fn(n[1]), pad, k)
+    if c == "NCheck":
+        return "NCheck %s %s\n%s(%s)" % (fn(n[1]), n[2], pad, k)
+    if c == "NIf":
+        return "NIf %s\n%s  (%s)\n%s  (%s)\n%s(%s)" % (fn(n[1]), pad, an_emit(n[2], indent + 1), pad, an_emit(n[3], indent + 1), pad, k)
+    if c == "NWhile":
+        return "NWhile %s %s\n%s(%s)" % (fn(n[1]), n[2], pad, k)
+    if c == "NForJourney":
+        return "NForJourney %s\n%s(%s)" % (n[1], pad, k)
+    raise Untranslatable("unexpected node " + c)
+
+
+AN_LOOP = r"^autonodeIte=transitData\.getNodes\(\)\.begin\(\);nodeIte!=transitData\.getNodes\(\)\.end\(\);(?:nodeIte\+\+|\+\+nodeIte)$"
+AN_PROLOGUE = [r"^std::unique_ptr<AllNodesResult>allNodesResult=std::make_unique<AllNodesResult>\(\)$", r"^intnodesCount\{1\}$",
+               r"^intreachableNodesCount\{0\}$", r"^(?:int)?nodesCount=transitData\.getNodes\(\)\.size\(\)$"]
+AN_EPILOGUE = [r"^allNodesResult\.get\(\)->numberOfReachableNodes=reachableNodesCount$",
+               r"^allNodesResult\.get\(\)->totalNodeCount=nodesCount$"]
+
+
+def an_translate(f, src):
+    body = GG.fn_body(src, f["sig"])
+    k = SK.skip_ws(body, 1)
+    loop, before, after = None, [], []
+    while k < len(body) and body[k] != "}":
+        if SK.keyword_at(body, k, "return"):
+            j = body.index(";", k)
+            if flat(body[k:j]) != "returnallNodesResult":
+                raise Untranslatable("unexpected return")
+            break
+        ns, k = SK.parse_stmt(body, k)
+        for n in ns:
+            if n[0] == "for" and re.match(AN_LOOP, flat(n[1])) and loop is None:
+                loop = n
+            elif n[0] == "stmt":
+                (before if loop is None else after).append(flat(n[1]))
+            else:
+                raise Untranslatable("`%s` outside the loop over the stops" % n[0])
+        k = SK.skip_ws(body, k)
+    if loop is None:
+        raise Untranslatable("loop over transitData.getNodes() not found")
+    for t in before:
+        if not (SK.LOGGING.match(t) or any(re.match(rx, t) for rx in AN_PROLOGUE)):
+            raise Untranslatable("unrecognised statement before the loop: " + t[:80])
+    for t in after:
+        if not (SK.LOGGING.match(t) or any(re.match(rx, t) for rx in AN_EPILOGUE)):
+            raise Untranslatable("unrecognised statement after the loop: " + t[:80])
+    for rx in AN_EPILOGUE + [AN_PROLOGUE[3]]:
+        if not any(re.match(rx, t) for t in before + after):
+            raise Untranslatable("the counts of the result are not assigned as expected")
+    names = {}
+    tree = an_convert(f, loop[2], False, names)
+    if "gen_%s_walk" % f["prefix"] not in names:
+        raise Untranslatable("the walk over the labels was not found")
+    defs = {name: an_emit(nodes, 1) for name, nodes in names.items()}
+    defs["gen_%s_stop" % f["prefix"]] = an_emit(tree, 1)
+    return defs
+
+
+AN_DEFS = {"fwdall": [("gen_fwdall_walk", "the body of the backwards walk over the labels"),
+                      ("gen_fwdall_stop", "the body of the loop over the stops")],
+           "revall": [("gen_revall_walk", "the body of the journey rebuild"),
+                      ("gen_revall_count", "the body of the count over the optimised journey"),
+                      ("gen_revall_stop", "the body of the loop over the stops")]}
+AN_HAND = dict(
+    fwdall=dict(
+        gen_fwdall_walk="""NIf (fun e m => (negb (x_cur_transferable e m)))
+    (NSetNtr (fun e m => ((nb_ntr m) + 1))
+    (NDone))
+    (NDone)
+  (NSetBest (fun e m => (x_enter_node (nb_cur m)))
+  (NSetCur (fun e m => (ne_steps e (x_best m)))
+  (NDone)))""",
+        gen_fwdall_stop="""NSetNtr (fun e m => (-1))
+  (NIf (fun e m => (negb (is_some (ne_labels e (ne_node e)))))
+    (NContinue)
+    (NDone)
+  (NSetCur (fun e m => (x_label e))
+  (NSetBest (fun e m => None)
+  (NWhile (fun e m => (js_has_conns (nb_cur m))) gen_fwdall_walk
+  (NIf (fun e m => (is_some (js_enter (x_label e))))
+    (NSetTime (fun e m => (x_exit_arr (x_label e)))
+    (NIf (fun e m => (((nb_time m) - (k_dep (ne_k e))) <=? (q_maxtt (ne_p e))))
+      (NIncCount
+      (NMakeNode (fun e m => {| an_node := ne_node e; an_time := (nb_time m); an_ttt := ((nb_time m) - (k_dep (ne_k e))); an_ntr := (nb_ntr m) |})
+      (NPushNode
+      (NDone))))
+      (NDone)
+    (NDone)))
+    (NDone)
+  (NDone))))))"""),
+    revall=dict(
+        gen_revall_walk="""NIf (fun e m => ((Z.of_nat (length (nb_journey m))) >? 0))
+    (NCopyWalk (fun e m => (nb_cur m))
+    (NDone))
+    (NDone)
+  (NPushBack (fun e m => (nb_cur m))
+  (NSetBest (fun e m => (x_exit_node (nb_cur m)))
+  (NSetCur (fun e m => (ne_steps e (x_best m)))
+  (NDone))))""",
+        gen_revall_count="""NIf (fun e m => (js_has_conns (nb_step m)))
+    (NIf (fun e m => (negb (x_step_transferable e m)))
+      (NSetNtr (fun e m => ((nb_ntr m) + 1))
+      (NDone))
+      (NDone)
+    (NDone))
+    (NDone)
+  (NDone)""",
+        gen_revall_stop="""NNewJourney
+  (NIf (fun e m => (negb (is_some (ne_labels e (ne_node e)))))
+    (NContinue)
+    (NDone)
+  (NSetCur (fun e m => (x_label e))
+  (NSetBest (fun e m => None)
+  (NWhile (fun e m => (js_has_conns (nb_cur m))) gen_revall_walk
+  (NCheck (fun e m => (is_some (nb_best m))) X_BAD_OPTIONAL
+  (NCheck (fun e m => (is_some (row_of (x_best m) (k_egrfp (ne_k e))))) X_OUT_OF_RANGE
+  (NPushBack (fun e m => (x_walk (x_row_time (row_of (x_best m) (k_egrfp (ne_k e)))) false (x_row_dist (row_of (x_best m) (k_egrfp (ne_k e))))))
+  (NOptimize
+  (NSetNtr (fun e m => (-1))
+  (NForJourney gen_revall_count
+  (NIf (fun e m => (is_some (js_enter (x_label e))))
+    (NSetTime (fun e m => ((x_enter_dep (x_label e)) - (x_enter_minw (ne_p e) (x_label e))))
+    (NIf (fun e m => (((k_arr (ne_k e)) - (nb_time m)) <=? (q_maxtt (ne_p e))))
+      (NIncCount
+      (NMakeNode (fun e m => {| an_node := ne_node e; an_time := (k_arr (ne_k e)); an_ttt := ((k_arr (ne_k e)) - (nb_time m)); an_ntr := (nb_ntr m) |})
+      (NPushNode
+      (NDone))))
+      (NDone)
+    (NDone)))
+    (NDone)
+  (NDone))))))))))))"""),
+)
+
+
+def an_regenerate(repo, report):
+    lines = [
+        "(* GENERATED by tools/gen_loops.py from /repo's forward_journey.cpp (Calculator::forwardJourneyStepAllNodes) and",
+        "   reverse_journey.cpp (Calculator::reverseJourneyStepAllNodes) - do not edit.",
+        "   %s *)",
+        "From Coq Require Import List ZArith Bool.",
+        "From TrV Require Import Scan Journey Calc.",
+        "Require Import TrV.AllNodes.",
+        "Local Open Scope Z_scope.",
+        "Local Open Scope bool_scope.",
+        ""]
+    origins = []
+    for f in AN_FUNCS:
+        origin = "source"
+        try:
+            defs = an_translate(f, GG.strip_c_comments(open(os.path.join(repo, f["file"])).read()))
+            if set(defs) != set(n for n, _ in AN_DEFS[f["prefix"]]):
+                raise Untranslatable("unexpected set of loops")
+        except (Untranslatable, GG.Untranslatable, ValueError, OSError) as e:
+            if AN_HAND is None:
+                raise RuntimeError("%s all-nodes builder: %s, and no committed tree to fall back to" % (f["prefix"], e))
+            origin = "fallback"
+            report["fallback"].append("allnodes_%s: %s" % (f["prefix"], e))
+            defs = AN_HAND[f["prefix"]]
+        report["functions"]["allnodes_" + f["prefix"]] = origin
+        origins.append("%s: %s" % (f["prefix"], origin))
+        lines.append("(* %s: %s *)" % (f["sig"].rstrip("("), origin))
+        for name, what in AN_DEFS[f["prefix"]]:
+            lines += ["(* %s *)" % what, "Definition %s : nskel :=\n  %s." % (name, defs[name]), ""]
+    lines[2] = lines[2] % ", ".join(origins)
+    return write_if_changed(AN_OUT, "\n".join(lines))
+
+
+# ------------------------------------------------------------------------------------------------
 
 def regenerate():
     repo = os.environ.get("TRV_REPO", "/repo")
     report = dict(functions={}, fallback=[])
     changed = rb_regenerate(repo, report)
     changed = al_regenerate(repo, report) or changed
+    changed = an_regenerate(repo, report) or changed
     report["changed"] = changed
     report["from_source"] = sum(1 for v in report["functions"].values() if v == "source")
     report["total"] = len(report["functions"])
@@ -692,6 +1015,11 @@ def print_hand():
     for var, fn, path in (("RB_HAND", rb_translate, RB_SRC), ("AL_HAND", al_translate, AL_SRC)):
         defs = fn(GG.strip_c_comments(open(os.path.join(repo, path)).read()))
         print("%s = dict(\n%s)" % (var, ",\n".join("    %s=\"\"\"%s\"\"\"" % (k, v) for k, v in defs.items())))
+    print("AN_HAND = dict(")
+    for f in AN_FUNCS:
+        defs = an_translate(f, GG.strip_c_comments(open(os.path.join(repo, f["file"])).read()))
+        print("    %s=dict(\n%s)," % (f["prefix"], ",\n".join("        %s=\"\"\"%s\"\"\"" % (k, v) for k, v in defs.items())))
+    print(")")
 
 
 if __name__ == "__main__":
